@@ -158,7 +158,7 @@ def new_columns(dump, nold):
     n, cols = parse_dump(dump)
     return n, cols[:nold], cols[nold:]
 
-def compare_rows(full_dump, red_dump, nold_full, nold_red, K, full_in, scale, masked_must_be_na=True, untouched=True, skip_rows=()):
+def compare_rows(full_dump, red_dump, nold_full, nold_red, K, full_in, scale, masked_must_be_na=True, untouched=True, skip_rows=(), sq_cols=()):
     """full_dump: Db with masks (n rows); red_dump: reduced Db (len(K) rows).  Returns list of (subkey, message)."""
     msgs = []
     n, old, new = new_columns(full_dump, nold_full)
@@ -175,7 +175,12 @@ def compare_rows(full_dump, red_dump, nold_full, nold_red, K, full_in, scale, ma
     for j, (c, cr) in enumerate(zip(new, newr)):
         for a, i in enumerate(K):
             if i in skip_rows: continue
-            if not close(c[2][i], cr[2][a], scale):
+            x, y = c[2][i], cr[2][a]
+            if j in sq_cols and x is not None and y is not None:
+                vmax = max([v * v for v in c[2] if v is not None] + [1])
+                ok = abs(x * x - y * y) <= TOL * (vmax + y * y)
+            else: ok = close(x, y, scale)
+            if not ok:
                 msgs.append(('value', 'new variable %d at sample %d: %s with the masked/undefined samples present, %s on the reduced Db (row %d)' % (j, i, fl(c[2][i]), fl(cr[2][a]), a)))
                 break
     return msgs
@@ -194,7 +199,7 @@ def run_kriging(ctx, exe, ncase, found):
         nfex = 1 if (kind == 'undefined-fext' or (order >= 0 and rng.random() < .2)) else 0
         if nfex and order < 0: order = 0
         moving = rng.random() < .45
-        n = rng.randint(nvar * (monomials(ndim, order) + nfex) + 6, 18); m = 5
+        lo = nvar * (monomials(ndim, order) + nfex) + 6; n = rng.randint(lo, max(lo + 2, 18)); m = 5
         base = gen_points(rng, ndim, nvar, n, nfex, hetero=(nvar == 2 and rng.random() < .5))
         out = gen_points(rng, ndim, 0, m, nfex, keepcol=True)
         # a target on a datum
@@ -252,7 +257,7 @@ def run_kriging(ctx, exe, ncase, found):
         elif rf[0] != rr[0]:
             msgs.append(('status', 'kriging() returns %d with the masked samples present and %d on the reduced Db' % (rf[0], rr[0])))
         else:
-            msgs += compare_rows(rf[1], rr[1], nold, nold, p['KT'], p['fout'], p['scale'])
+            msgs += compare_rows(rf[1], rr[1], nold, nold, p['KT'], p['fout'], p['scale'], sq_cols=range(p['nvar'], 2 * p['nvar']))
         if rr is None or rf[0] == rr[0]:
             # masked targets: new variables undefined
             n, old, new = new_columns(rf[1], nold)
@@ -283,7 +288,7 @@ def run_kriging(ctx, exe, ncase, found):
             nold = len(p['fout'].cols)
             for m_, t1, t2, f in p['sub']:
                 a, b = B2.get(t1), B2.get(t2)
-                if a == 'crash' or b == 'crash' or a[0] != b[0] or compare_rows(a[1], b[1], nold, nold, p['KT'], p['fout'], p['scale']):
+                if a == 'crash' or b == 'crash' or a[0] != b[0] or compare_rows(a[1], b[1], nold, nold, p['KT'], p['fout'], p['scale'], sq_cols=range(p['nvar'], 2 * p['nvar'])):
                     p['culprit'] = [m_['kind']]; rep = dict(rep); rep['shrunk_to'] = {'mask': m_, 'with_masks': sx_str(B2.cases[t1]), 'reduced': sx_str(B2.cases[t2])}; break
             emit(p, msgs, rep)
     return B, plan
@@ -306,7 +311,7 @@ def run_xvalid(ctx, exe, ncase, found):
     for ic in range(ncase):
         ndim = rng.choice([1, 2, 2]); order = rng.choice([-1, 0, 1]); kind = kinds[ic % len(kinds)]
         moving = rng.random() < .5
-        n = rng.randint(monomials(ndim, order) + 7, 16)
+        lo = monomials(ndim, order) + 7; n = rng.randint(lo, max(lo + 2, 16))
         base = gen_points(rng, ndim, 1, n, 0, keepcol=True)
         model = simple_model(rng, ndim, 1, order)
         neigh = [1, 1, rng.choice([4, 6, 8]), dy(rng.choice([30, 1000]))] if moving else [0]
@@ -673,7 +678,7 @@ def run_kreduce_model(ctx, runner, ncase, found):
         ndim = rng.choice([1, 2, 2, 3]); nvar = rng.choice([1, 1, 2]); order = rng.choice([-1, 0, 1]); kind = kinds[ic % len(kinds)]
         nfex = 1 if kind == 'undefined-fext' else 0
         if nfex and order < 0: order = 0
-        n = rng.randint(nvar * (monomials(ndim, order) + nfex) + 5, 14); m = 3
+        lo = nvar * (monomials(ndim, order) + nfex) + 5; n = rng.randint(lo, max(lo + 2, 14)); m = 3
         base = gen_points(rng, ndim, nvar, n, nfex, hetero=(nvar == 2 and rng.random() < .5))
         out = gen_points(rng, ndim, 0, m, nfex)
         model = simple_model(rng, ndim, nvar, order, nfex)
